@@ -18,6 +18,9 @@ type vChainRPC struct {
 	// native rendezvous for the two-goroutine replay of a lock-order cycle
 	gate    *sync.WaitGroup
 	arrived chan struct{}
+	// last gettxout answer
+	lastConfs uint32
+	answered  bool
 }
 
 func (c *vChainRPC) GetBlockHeight() (uint64, error) {
@@ -38,7 +41,9 @@ func (c *vChainRPC) GetTxOut(txid string, vout uint32) (*txwatcher.TxOutResp, er
 	if zzverif.Bool("rpc.gettxout.nil") {
 		return nil, nil
 	}
-	return &txwatcher.TxOutResp{BestBlockHash: zzverif.Str("rpc.bestblock"), Confirmations: zzverif.U32("rpc.confs")}, nil
+	c.lastConfs = zzverif.U32("rpc.confs")
+	c.answered = true
+	return &txwatcher.TxOutResp{BestBlockHash: zzverif.Str("rpc.bestblock"), Confirmations: c.lastConfs}, nil
 }
 func (c *vChainRPC) GetBlockHash(height uint32) (string, error) {
 	return zzverif.Str("rpc.blockhash"), nil
@@ -70,7 +75,7 @@ func vRealWatcherScenario(st StateType) (*vScenario, *txwatcher.BlockchainRpcTxW
 // CSV claim.
 func H_C18_cancelAfterCsvMatured_NoPanic() {
 	st := State_SwapInSender_AwaitClaimPayment
-	sc, _, _ := vRealWatcherScenario(st)
+	sc, wt, rpc := vRealWatcherScenario(st)
 	if sc.role == rOutReceiver {
 		sc.sm.Current, sc.sm.Data.FSMState = State_SwapOutReceiver_AwaitClaimInvoicePayment, State_SwapOutReceiver_AwaitClaimInvoicePayment
 	}
@@ -80,9 +85,17 @@ func H_C18_cancelAfterCsvMatured_NoPanic() {
 	}
 	sc.vApply(stim)
 	zzverif.Reach("c18.handler_returned")
-	post := sc.vCurrent()
 	zzverif.Assert(zzverif.LocksHeld() == 0, "C18.handler_releases_all_locks")
-	zzverif.Assert(post != sc.sm.Current || true, "C18.handler_returns")
+	if sc.vCurrent() == State_WaitCsv {
+		// whatever the handler started in the background (or the next block) runs now
+		rpc.answered = false
+		wt.HandleCsvTx(uint64(zzverif.U32("block")))
+		if rpc.answered && rpc.lastConfs >= 1008 {
+			zzverif.Reach("c18.csv_matured")
+			post := sc.vCurrent()
+			zzverif.Assert(post == State_ClaimedCsv || post == State_SwapInSender_ClaimSwapCsv || post == State_SwapOutReceiver_ClaimSwapCsv, "C18.matured_csv_leads_to_refund")
+		}
+	}
 }
 
 // H_C18_restartAfterCsvMatured_NoPanic: recovery of a waiting maker when the CSV matured while the node was
